@@ -110,7 +110,8 @@ class MSTensor(AtomsProperty):
                     raise ValueError("Reference list must have one item per site")
                 ref_list = list(ref)
             else:
-                ref_list = [ref[symbol] if isinstance(ref, dict) else ref for symbol in symbols]
+                # elements missing from a dictionary get reference zero, as in MSShift
+                ref_list = [ref.get(symbol, 0.0) if isinstance(ref, dict) else ref for symbol in symbols]
         if "grad" in kwargs:
             grad = kwargs.pop("grad")
             if isinstance(grad, (list, np.ndarray)):
@@ -118,7 +119,8 @@ class MSTensor(AtomsProperty):
                     raise ValueError("Gradient list must have one item per site")
                 grad_list = list(grad)
             else:
-                grad_list = [grad[symbol] if isinstance(grad, dict) else grad for symbol in symbols]
+                # ... and gradient -1
+                grad_list = [grad.get(symbol, -1.0) if isinstance(grad, dict) else grad for symbol in symbols]
 
         ms_tensors = [MagneticShielding(ms, species=symbol, order=order, reference=ref, gradient=grad)
                         for ms, symbol, ref, grad in zip(ms_list, symbols, ref_list, grad_list)]
